@@ -26,12 +26,30 @@ def F0() -> S0: return S0(0, ())
 def F1() -> S0: return S0(1, ())
 def F2(a: S0) -> S1: return S1(2, (a,))
 def F3(a: S0, b: S1) -> S2: return S2(3, (a, b))
-def F4(b: S1, n: int) -> S2: return S2(4, (b, n))
+class KA:
+    # factories with one __name__ and different __qualname__ (static methods of two classes): the container keeps per-factory
+    # bookkeeping, which must not be shared between them
+    @staticmethod
+    def make(b: S1, n: int) -> S2: return S2(4, (b, n))
+
+    @staticmethod
+    def build(c: S2, t: str) -> S4: return S4(7, (c, t))
+
+
+class KB:
+    @staticmethod
+    def make(n: int, a: S0) -> S3: return S3(6, (n, a))
+
+    @staticmethod
+    def build(d: S3) -> S4: return S4(9, (d,))
+
+
+F4 = KA.make
 def F5(a: S0, b: S1, n: int) -> S3: return S3(5, (a, b, n))
-def F6(n: int, a: S0) -> S3: return S3(6, (n, a))
-def F7(c: S2, t: str) -> S4: return S4(7, (c, t))
+F6 = KB.make
+F7 = KA.build
 def F8() -> S1: return S1(8, ())
-def F9(d: S3) -> S4: return S4(9, (d,))
+F9 = KB.build
 def F10(a: S0, b: S1, c: S2) -> S5: return S5(10, (a, b, c))
 def F11(a: S0, x: S4, n: int) -> S5: return S5(11, (a, x, n))
 
